@@ -227,6 +227,107 @@ def statement_kills(ctx):
     return problems
 
 
+def kill_histories(ctx):
+    """Kills through the real LocalControl registry with a HISTORY on the target: earlier KILL QUERYs (on an idle target, on one
+    inside the application), statements in between, then KILL CONNECTION - by statement from another connection or through the
+    Control API.  The last kill must end the target: task finished, socket closed, session closed exactly once, registry entry
+    gone; every KILL statement is answered with one OK; an earlier KILL QUERY leaves the target in service."""
+    import client as cl
+    import impl
+    from mysql_mimic.control import KillKind
+    problems = []
+    histories = [[], ["kq-idle"], ["kq-idle", "query"], ["kq-app", "query"], ["kq-idle", "kq-idle"], ["query", "kq-idle", "ping"], ["kq-app"]]
+    for hist in histories:
+        for final in ("statement", "api", "statement-in-app"):
+            env = impl.Env(own_sleep=False)
+            try:
+                closes = []
+
+                class S(impl.Session):
+                    async def query(self, e, sql, attrs):
+                        await env.fut(("app", 0))
+                        return [(7,)], ["a"]
+
+                    async def close(self):
+                        closes.append(self.connection.connection_id if getattr(self, "connection", None) else None)
+                        await super().close()
+
+                srv = impl.make_server(env, S)
+                a = impl.Conn(env, srv, cid=0); env.settle()
+                aid = cl.parse_handshake_v10(cl.split_raw(a.take())[0][1])["thread_id"]
+                a.feed(cl.frame(cl.handshake_response(user=b"u"), 1)); a.take()
+                b = impl.Conn(env, srv, cid=1); env.settle()
+                b.take()
+                b.feed(cl.frame(cl.handshake_response(user=b"u"), 1)); b.take()
+                ctx.evals += 1
+                kinds = lambda raw: [cl.kind_of(p, cl.BASE_CAPS) for _, p in cl.split_raw(raw)]   # noqa: E731
+                where = dict(history=hist, final_kill=final)
+
+                def run_query(expect_killed=False):
+                    a.feed(cl.frame(bytes([cl.COM_QUERY]) + b"SELECT a FROM t", 0))
+                    if not expect_killed:
+                        if ("app", 0) in env.pending:
+                            env.resolve(("app", 0), None)
+                        env.settle()
+                        got = kinds(a.take())
+                        if "ERR" in got or len(got) < 4:
+                            problems.append(dict(problem="a statement after KILL QUERY was not served normally", reply=got, **where))
+
+                for h in hist:
+                    if h == "kq-idle":
+                        b.feed(cl.frame(bytes([cl.COM_QUERY]) + b"KILL QUERY %d" % aid, 0))
+                        if kinds(b.take()) != ["OK"] or kinds(a.take()) != [] or a.blocked_on() != "read":
+                            problems.append(dict(problem="KILL QUERY of an idle connection is not a no-op answered with OK", **where))
+                    elif h == "kq-app":
+                        run_query(expect_killed=True)
+                        b.feed(cl.frame(bytes([cl.COM_QUERY]) + b"KILL QUERY %d" % aid, 0))
+                        gb, ga = kinds(b.take()), kinds(a.take())
+                        if gb != ["OK"] or ga != ["ERR"] or a.blocked_on() != "read":
+                            problems.append(dict(problem="KILL QUERY of a running statement: not one OK / one ERR / target in service", issuer=gb, target=ga, **where))
+                    elif h == "query":
+                        run_query()
+                    elif h == "ping":
+                        a.feed(cl.frame(bytes([cl.COM_PING]), 0))
+                        if kinds(a.take()) != ["OK"]:
+                            problems.append(dict(problem="PING not answered after KILL QUERY", **where))
+                if final == "statement-in-app":
+                    run_query(expect_killed=True)
+                if final == "api":
+                    env.loop.run_until_complete(srv.control.kill(aid, KillKind.CONNECTION))
+                    env.settle()
+                else:
+                    b.feed(cl.frame(bytes([cl.COM_QUERY]) + b"KILL %d" % aid, 0))
+                    gb = kinds(b.take())
+                    if gb != ["OK"]:
+                        problems.append(dict(problem="KILL CONNECTION statement not answered with one OK", issuer=gb, **where))
+                env.settle()
+                ga = kinds(a.take())
+                state = a.blocked_on()
+                bad = []
+                if state != "done":
+                    bad.append(f"the target's task is still running (blocked on {state})")
+                    a.feed(cl.frame(bytes([cl.COM_PING]), 0))
+                    if kinds(a.take()) == ["OK"]:
+                        bad.append("it goes on answering commands")
+                if not a.writer.closed:
+                    bad.append("its socket is not closed")
+                if len(closes) != 1:
+                    bad.append(f"its session was closed {len(closes)} time(s)")
+                if aid in srv.control._connections:
+                    bad.append("its registry entry remains")
+                if ga.count("ERR") > 1 or any(k != "ERR" for k in ga):
+                    bad.append(f"it was sent {ga} after the kill")
+                if bad:
+                    problems.append(dict(problem="KILL CONNECTION did not end the target: " + "; ".join(bad), **where))
+                a.eof(); b.eof()
+                env.settle()
+                if srv.control._connections:
+                    problems.append(dict(problem="registry not empty after both clients left", ids=list(srv.control._connections), **where))
+            finally:
+                env.close()
+    return problems
+
+
 def run(ctx: core.Ctx):
     rng = ctx.rng
     pr = core.check_proofs(ctx, "Props/C09", headers=[HEADER])
@@ -300,6 +401,9 @@ def run(ctx: core.Ctx):
     sk = statement_kills(ctx)
     if sk and witness is None:
         witness = dict(kind="kill-statement", problems=sk)
+    kh = kill_histories(ctx)
+    if kh and witness is None:
+        witness = dict(kind="kill-with-history", problems=kh[:4])
     if witness is not None:
         core.report_violation(ctx, "a kill does more (or less) than the property allows", witness)
     if (not pr["ok"] or disagreements) and not ctx.violations:
@@ -313,6 +417,8 @@ def run(ctx: core.Ctx):
         rule="reference program over every command kind (queries with async rows and cooperative yields at batch 2, prepared statements, "
              "cursor fetches under a paused socket, COM_CHANGE_USER with a more-data round trip, ...): one kill of either kind before "
              "every script position, two kills at ordered pairs of positions (all / sampled), random walks with kills and pause/resume; "
+             "kills through the real LocalControl on targets with a history (KILL QUERY while idle / inside the application, statements "
+             "in between, then KILL CONNECTION by statement or Control API) with the lifecycle oracle; "
              "kills go through Connection.kill at loop-iteration boundaries; every trace replayed on Model/Conn.v; oracles: KILL QUERY "
              "never ends the connection, KILL CONNECTION always does with at most one close, every response obeys Model/Resp.v, "
              "PING/QUIT served afterwards. distinct = traces",
